@@ -472,8 +472,13 @@ def _my_clone(ex, env):
     def clear(ex2, self):
         self.fields['cleared'] = True
         return self
-    return Obj('SequenceOf', {'present': z3.K(I, False), 'copyOf': z3.K(I, IntVal(-1)), 'cleared': False, 'deepOk': z3.BoolVal(True)},
-               {'setComponentByPosition': set_pos, 'clear': clear}, name='myClone')
+
+    def reset(ex2, self):
+        self.fields['wasReset'] = True
+        return self
+    return Obj('SequenceOf', {'present': z3.K(I, False), 'copyOf': z3.K(I, IntVal(-1)), 'cleared': False, 'wasReset': False,
+                              'deepOk': z3.BoolVal(True)},
+               {'setComponentByPosition': set_pos, 'clear': clear, 'reset': reset}, name='myClone')
 
 
 def _copied(ex, clone, upto=None):
@@ -1145,7 +1150,10 @@ RECORD_CLONE_VALUES = record_contract(
     loops={0: Loop(index='i', invariant=['copied(myClone)', 'copied_upto(myClone, i)'],
                    havoc_fields=['myClone.present', 'myClone.copyOf', 'myClone.deepOk'])},
     ensures=[
-        ('schema-stays-schema', 'schema ==> (not myClone.cleared and copied(myClone))'),
+        # the copy of a schema object (the placeholder of an unset member) is a schema object: a freshly constructed record
+        # with declared components counts as an empty value, so the copy has to be reset
+        ('schema-stays-schema', 'schema ==> (myClone.wasReset and not myClone.cleared and copied(myClone))'),
+        ('a-value-is-not-reset', '(not schema) ==> not myClone.wasReset'),
         # every stored member -- complete value, partly filled record or placeholder alike: what it holds is its own
         # clone()'s business -- is copied (not shared) to the same position, constructed members deeply
         ('every-member-copied-to-its-position', '(not schema) ==> copied_upto(myClone, LLEN0)'),
